@@ -73,7 +73,9 @@ def run(ctx):
         if ext in SKIP:
             continue
         for tname, t in (("multi", t_small), ("single", t_one)):
-            for pre in ("longer", "junk"):
+            for pre in ("longer", "junk", "junk-last", "junk-first"):
+                if pre in ("junk-last", "junk-first") and not (ext in RESTART and t.n_frames > 1):
+                    continue
                 path = os.path.join(ctx.scratch, "exist" + ext)
                 fresh = os.path.join(ctx.scratch, "fresh" + ext)
                 multi_restart = ext in RESTART and t.n_frames > 1
@@ -85,7 +87,11 @@ def run(ctx):
                         clean(tg)
                     # pre-existing content
                     victim = targets[1] if multi_restart else path
-                    if pre == "junk":
+                    if pre == "junk-last":
+                        victim = targets[-1]
+                    elif pre == "junk-first":
+                        victim = targets[0]
+                    if pre.startswith("junk"):
                         if ext == ".dtr":
                             os.makedirs(victim)
                             open(os.path.join(victim, "unrelated.bin"), "wb").write(b"unrelated bytes" * 50)
